@@ -285,6 +285,19 @@ func sqlBoundaryInputs() []string {
 				}
 			}
 		}
+		// (j) every word key of the table (any class) in the positions where its class decides the fingerprint
+		var wordKeys []string
+		for k, v := range kwTab() {
+			if v != 'F' && !strings.Contains(k, " ") && len(k) >= 2 && (gen.IsLetter(k[0]) || k[0] == '_') {
+				wordKeys = append(wordKeys, gen.LowerASCII(k))
+			}
+		}
+		sort.Strings(wordKeys)
+		for _, wk := range wordKeys {
+			for _, t := range []string{"1 and W(5)", "x' and W(5) --", "1 W 1", "W(", "1, W", "1 or W()=1", "x' W 1 --", "1; W t"} {
+				add(strings.ReplaceAll(t, "W", wk))
+			}
+		}
 		// (h) the eleven function-like names in every token form, in front of '('
 		for _, nm := range []string{"user_id", "user_name", "database", "password", "user", "current_user", "current_date", "current_time", "current_timestamp", "localtime", "localtimestamp", "version", "sleep"} {
 			for _, form := range []string{nm, "`" + nm + "`", "@" + nm, "@@" + nm, "[" + nm + "]", gen.UpperASCII(nm), "@`" + nm + "`"} {
